@@ -20,20 +20,25 @@ LEVEL_TEXT = ('Lean theorems over decoder objects modelled as state machines: fo
               'flag, of the ldpc objects\' channel probabilities and of their result buffers, with or without '
               'channel_update, CSS or not; MatchingDecoder does not change its object; for the sweep-match decoders '
               'the X half and the validity (binary, length 2n, Z-row syndrome reproduced) hold for every generator '
-              'state. The model is tied to the code on every run by replaying multi-call histories through boundary '
-              'spies.')
+              'state. XCubeMatchingDecoder (complete model of its glue, every lattice size, deformed or not): after '
+              'every history the correction or exception is a function of the immutable attributes and the syndrome; '
+              'a call whose matching part raises leaves the BP-OSD decoder untouched. The model is tied to the code '
+              'on every run by replaying multi-call histories through boundary spies.')
 LEVEL_NOTE = ('trusted (modelled, not verified): ldpc decode() is a function of (matrix, schedule, current channel '
               'probabilities, syndrome) and PyMatching decode() of (matrix, weights, syndrome) - tested on every run '
               '(reused object vs fresh objects, all ordered pairs of valid syndromes on tiny codes). Immutability of '
               'inputs is structural in the model; for the real numpy arrays (caller\'s syndrome, lru_cached '
-              'probability_distribution arrays) it is tested by snapshots, not proved. Union-find, XCube matching and '
-              'MBP internals: tested only.')
+              'probability_distribution arrays) it is tested by snapshots, not proved (XCubeMatchingDecoder: the '
+              'caller\'s array is compared before/after every call of the correspondence histories; the model works '
+              'on the masked / restored copies by value). Union-find internals: tested only; MBP works on copies of '
+              'its message arrays (its glue model Model/MbpDecoder.lean is a function; reused-vs-fresh is tested).')
 TECHNIQUE = ('Lean 4 proof (state-machine invariant by induction over the call history) + multi-call boundary-spy '
              'correspondence + reused-vs-fresh oracle with input snapshots')
 TRUSTED = ['ldpc BpOsdDecoder.decode return value depends only on (matrix, schedule, channel probabilities, syndrome)',
            'pymatching Matching.decode depends only on (graph, weights, syndrome)']
 ASSUMPTIONS = ['the code object and the error model are not mutated between decode calls (no code.deform() after the '
                'decoder was built)']
+PROPERTY_MODULES = ['PanqecVerif.Properties.C06', 'PanqecVerif.Properties.C06XCube']
 ANCHOR_FILES = ['panqec/decoders/belief_propagation/bposd_decoder.py',
                 'panqec/decoders/matching/_matching_decoder.py', 'panqec/decoders/union_find/uf_decoder.py',
                 'panqec/decoders/xcube/_xcube_matching_decoder.py', 'panqec/error_models/_pauli_error_model.py']
@@ -145,6 +150,10 @@ def correspondence(ctx):
                   {'fn': 'update_probabilities', 'correction': corr, 'px': list(map(str, px)),
                    'py': list(map(str, py)), 'pz': list(map(str, pz)), 'direction': direction}, tag=direction)
     streams.append(s.run())
+
+    # --- XCubeMatchingDecoder: histories on one object against the complete model
+    from harness import xcube_dec as XC
+    streams.append(XC.history_stream(ctx, ctx.np_rng(66)))
     return streams
 
 
